@@ -41,6 +41,30 @@ CHECKS = {
              "ordered clause sequences with every accepted prefix extended by deviating calls.",
         design_ref="DESIGN.md section 7, C04",
         technique="Coq proof (range-partition invariant + refinement to the slot sequence) + model/implementation co-execution"),
+    "C07": dict(
+        text="Machine-checked theorems (Props/C07.v): in ANY state, a call to an unmentioned method resolves by 'default body > real function if partial or "
+             "partial-by-default > panic', a call to an unordered method whose patterns all reject resolves to panic (strict) / real function (partial), a missing "
+             "real function is a recorded CannotUnmock panic; none of these rows changes a counter, the ordered index or a single-use slot (also over whole histories "
+             "of such calls) and none produces a Return/Answer, i.e. the mock never fabricates a value. Tied to /repo by co-executing the whole decision table "
+             "exhaustively (methods x strict/partial x situation x 8 arguments x position), Termination::report as the partial-by-default row.",
+        design_ref="DESIGN.md section 7, C07",
+        technique="Coq proof (decision-table identity + quiet-state invariant) + exhaustive table co-execution"),
+    "C14": dict(
+        text="Machine-checked theorems (Props/C14.v): for clause trees of any depth/width, if every tuple impl visits 0..n-1 in order then deconstruction = leaves "
+             "left to right (the premise is re-proved on every run for the visiting orders OBSERVED from the real impls of arity 2..16, TupleOrderCheck.v); "
+             "assembly is refused iff, left to right, some clause is an empty stub, has an unproducible return, or another mode than its method's first clause "
+             "(either order, any distance), with the first such clause's message, at construction; at_least_times on ordered chains and then() after a non-exact "
+             "count do not type-check in the builder model. Tied to /repo by compiling and running generated REAL tuple expressions (nested trees, offending clause "
+             "at every leaf position) against the leaves-order model.",
+        design_ref="DESIGN.md section 7, C14",
+        technique="Coq proof (structural induction over clause trees; assembler invariant) + regenerated tuple-order table + co-execution of generated tuple programs"),
+    "C18": dict(
+        text="Machine-checked theorems (Props/C18.v): any re-ordering generated by exchanging adjacent clauses of different methods that are not both ordered leaves "
+             "every method's mode and pattern list (slot ranges included), hence every table lookup, unchanged, and the two lists are rejected together; a call's outcome "
+             "and effect on the shared state are the same through any live instance; generic instantiations are distinct methods. Tied to /repo by paired runs: each base "
+             "case as is / permuted / re-routed through clones / interleaved with a twin mock must give identical outcomes and verdicts, equal to the model.",
+        design_ref="DESIGN.md section 7, C18",
+        technique="Coq proof (permutation invariance of assembly, routing lemma) + paired-run co-execution"),
 }
 
 NOT_YET = "check not built yet (work in progress in this session; designed in DESIGN.md section 7)"
